@@ -123,6 +123,9 @@ type child struct {
 	// start to the end of the cold-start phase, during which the harness itself must neither
 	// ask for the token nor send any authenticated or discovery request.
 	warm bool
+	// noCred: the auth mode has no credentials that can be presented over this listener
+	// (tailscale modes on an ordinary TCP listener): only the unauthenticated phases run.
+	noCred bool
 	// coldStealth: answers of the stealth root to cold-start requests, judged once the
 	// authenticated discovery document is known
 	coldStealth []coldAnswer
@@ -294,6 +297,13 @@ func (c *child) setCred() error {
 		// server hands to authenticated clients in discovery.
 		c.rightPass = arg
 		c.cred = func(r *http.Request) { r.Header.Set("Authorization", "Token "+c.token()) }
+	case "tailscale":
+		// tailscale:full-access-to-tailnet / tailscale:<login>: the requester is identified by the
+		// tsnet listener the request came in through.  This server listens on an ordinary TCP
+		// socket, so no request at all can establish a tailnet origin: there is nothing the harness
+		// could present as credentials, and every request is an unauthenticated one.
+		c.noCred = true
+		c.cred = func(*http.Request) {}
 	default:
 		return fmt.Errorf("auth mode %q does not require credentials from a loopback client", kind)
 	}
@@ -425,6 +435,16 @@ func (c *child) run(checkpoint func()) {
 	c.coldStart()
 	c.warm = true
 	checkpoint()
+	if c.noCred {
+		c.unauthenticatedNoCred()
+		checkpoint()
+		for _, rs := range c.table() {
+			if rs.Kind == "restart" {
+				c.judgeUnauth(rs, "none")
+			}
+		}
+		return
+	}
 	if err := c.populate(); err != nil {
 		res.Fatal = "populating the server with credentials: " + err.Error()
 		return
@@ -1051,6 +1071,9 @@ func (c *child) witness(rs reqSpec, mode string, ri respInfo) reqWitness {
 	return reqWitness{CaseID: caseID(c.spec, rs, mode), Config: cs, Request: rs, Creds: mode, Status: ri.Status, Body: trunc(string(ri.Body), 300)}
 }
 
+var unauthModes = []string{"none", "wrong-basic", "wrong-token", "empty-basic", "wronguser-rightpass", "rightuser-empty-pass", "truncated-token",
+	"ws-upgrade-empty-token", "ws-upgrade-wrong-token", "ws-upgrade-no-token", "empty-token-header"}
+
 // unauthenticated runs the whole table without (or with wrong) credentials, prefix by prefix,
 // comparing the full state before and after each prefix's batch.
 func (c *child) unauthenticated() {
@@ -1071,8 +1094,7 @@ func (c *child) unauthenticated() {
 		groups = append(groups, tab[i:j])
 		i = j
 	}
-	modes := []string{"none", "wrong-basic", "wrong-token", "empty-basic", "wronguser-rightpass", "rightuser-empty-pass", "truncated-token",
-		"ws-upgrade-empty-token", "ws-upgrade-wrong-token", "ws-upgrade-no-token", "empty-token-header"}
+	modes := unauthModes
 	for _, g := range groups {
 		type item struct {
 			rs   reqSpec
@@ -1154,6 +1176,50 @@ func (c *child) unauthenticated() {
 			before = after
 		}
 	}
+}
+
+// unauthenticatedNoCred is the warm unauthenticated phase of a server whose auth mode offers no
+// credentials over this listener (tailscale modes on an ordinary TCP listener): the whole table
+// under every credential variant, oracle: refusal.  There is no authenticated way to dump the
+// stores over HTTP in this mode, so the state comparison of unauthenticated() is not made here.
+func (c *child) unauthenticatedNoCred() {
+	type item struct {
+		rs   reqSpec
+		mode string
+	}
+	var items []item
+	for _, rs := range c.table() {
+		if rs.Kind == "restart" {
+			continue
+		}
+		for mi, m := range unauthModes {
+			if mi > 0 && rs.Method != "GET" && rs.Method != "POST" {
+				continue
+			}
+			if strings.HasPrefix(m, "ws-upgrade-") && rs.Method != "GET" {
+				continue
+			}
+			items = append(items, item{rs, m})
+		}
+	}
+	ch := make(chan item, len(items))
+	for _, it := range items {
+		ch <- it
+	}
+	close(ch)
+	var wg sync.WaitGroup
+	for k := 0; k < 8; k++ {
+		wg.Add(1)
+		go func() {
+			defer wg.Done()
+			for it := range ch {
+				c.judgeUnauth(it.rs, it.mode)
+				c.count("no_tailnet_origin_requests", 1)
+				c.note("no_tailnet_origin", authKind(c.spec.Auth)+"/"+it.rs.HType)
+			}
+		}()
+	}
+	wg.Wait()
 }
 
 // lateSettling reports whether after differs from before only by added lines that mention a
